@@ -471,6 +471,10 @@ def check(prog, rep):
     guarded_lookups(prog, rep)
     termination(prog, rep)
     rep.note("observation: q2_query_bucket_eventcount does not translate iso8601.ParseError (only reachable after a query re-binds STARTTIME/ENDTIME to a non-timestamp); q2_query_bucket does")
+    # nothing on the way is memoised on a key that does not determine the answer
+    from ..rules_own import memo_rule
+
+    memo_rule(prog, rep, rule="MEMO")
 
 
 VARIANTS = [
